@@ -80,6 +80,10 @@ type SignerSpec struct {
 	// key lengths around the SHA-256 block size, a second ECDSA / RSA key). Not part of the
 	// generic "signer" deviation dimension; C12 enumerates them as signer modes of their own.
 	KeyVariant bool
+	// FailsToSign: a shipped constructor given a key with which every ComputeSigValue call returns
+	// an error (RSA-384 is too short for PKCS#1 v1.5 with SHA-256). Only used as a predecessor in
+	// signer histories: a failed signing call must not influence later ones.
+	FailsToSign bool
 }
 
 var (
@@ -90,6 +94,7 @@ var (
 	KeyRSA2048  *rsa.PrivateKey
 	KeyP256b    *ecdsa.PrivateKey
 	KeyRSA2048b *rsa.PrivateKey
+	KeyRSA384   *rsa.PrivateKey
 )
 
 // HmacKeyLens are the lengths of the additional HMAC keys: 0 (the signers accept an empty key), 1, and around the digest size (32) and
@@ -126,6 +131,7 @@ func init() {
 	KeyP256b = mustKey(keyP256b).(*ecdsa.PrivateKey)
 	KeyRSA2048b = mustKey(keyRSA2048b).(*rsa.PrivateKey)
 	KeyRSA2048b.Precompute()
+	KeyRSA384 = mustKey(keyRSA384).(*rsa.PrivateKey)
 	KeyRSA1024.Precompute()
 	KeyRSA2048.Precompute()
 	signerList = buildSigners()
@@ -188,7 +194,11 @@ func buildSigners() []SignerSpec {
 		SignerSpec{Name: "ecdsa-p256-keyB", Family: "ecdsa", KeyVariant: true, Validate: ec(KeyP256b),
 			New: func() ndn.Signer { return security.NewEccSigner(false, false, 0, KeyP256b, keyName("eB")) }},
 		SignerSpec{Name: "rsa2048-keyB", Family: "rsa", KeyVariant: true, Validate: rs(KeyRSA2048b),
-			New: func() ndn.Signer { return security.NewRsaSigner(false, false, 0, KeyRSA2048b, keyName("rB")) }})
+			New: func() ndn.Signer { return security.NewRsaSigner(false, false, 0, KeyRSA2048b, keyName("rB")) }},
+		SignerSpec{Name: "rsa384-unusable", Family: "rsa", KeyVariant: true, FailsToSign: true, Validate: rs(KeyRSA384),
+			New: func() ndn.Signer { return security.NewRsaSigner(false, false, 0, KeyRSA384, keyName("r3")) }},
+		SignerSpec{Name: "rsa384-unusable-int", Family: "rsa", KeyVariant: true, FailsToSign: true, Validate: rs(KeyRSA384),
+			New: func() ndn.Signer { return security.NewRsaSigner(false, true, 0, KeyRSA384, keyName("r3")) }})
 	return list
 }
 
